@@ -428,7 +428,7 @@ func genC15(t *rapid.T) c15Case {
 	c := c15Case{Op: rapid.SampledFrom(names).Draw(t, "op"), X: genRawOperand(t, "x"), Y: genRawOperand(t, "y"), Alias: rapid.IntRange(0, 4).Draw(t, "alias")}
 	switch c.Op {
 	case "batchinvert":
-		n := rapid.SampledFrom([]int{0, 1, 2, 3, 8, 255, 256, 257, 511, 512, 513, 1500}).Draw(t, "veclen")
+		n := rapid.SampledFrom([]int{0, 1, 2, 3, 8, 255, 256, 257, 511, 512, 513, 1023, 1024, 1025, 1500, 2049, 4097}).Draw(t, "veclen")
 		if rapid.Bool().Draw(t, "veclen_any") {
 			n = rapid.IntRange(0, 40).Draw(t, "veclen_n")
 		}
